@@ -38,10 +38,21 @@ func bftPub(k int) crypto.PubKey   { return bftKeys()[k].PubKey() }
 func bftAddr(k int) crypto.Address { return bftKeys()[k].PubKey().Address() }
 
 // bftBlockID returns the k-th block id of the small alphabet used by the
-// vote/commit checks: 0 is the nil block, k >= 1 a complete block id.
+// vote/commit checks: 0 is the nil block, k >= 1 a complete block id. Ids 5
+// and 6 have the block hash of id 1 but another parts header (total / hash).
 func bftBlockID(k int) types.BlockID {
 	if k == 0 {
 		return types.BlockID{}
+	}
+	if k == 5 || k == 6 {
+		id := bftBlockID(1)
+		if k == 5 {
+			id.PartsHeader.Total = 2
+		} else {
+			p := sha256.Sum256([]byte("verif-parts-6"))
+			id.PartsHeader.Hash = p[:]
+		}
+		return id
 	}
 	h := sha256.Sum256([]byte(fmt.Sprintf("verif-block-%d", k)))
 	p := sha256.Sum256([]byte(fmt.Sprintf("verif-parts-%d", k)))
